@@ -31,7 +31,7 @@ ASSUMPTIONS = [
 BUDGET = {"quick": 900, "thorough": 3 * 3600}
 EPS = float(np.finfo(float).eps)
 
-AS = [[2.0, 2.0], [-0.5, -0.5], [2.0**10, 2.0**-10], [-3.0, 0.25]]
+AS = [[2.0, 2.0], [-0.5, -0.5], [2.0**10, 2.0**-10], [-3.0, 0.25], [2.0**-32, -(2.0**-32)]]  # the last one: every feature in tiny units
 BS = [[0.0, 0.0], [5.0, -7.0], [2.0**10, 0.125], [2.0**17, -(2.0**18)]]
 MAPS = [(a, b) for a in AS for b in BS]
 
@@ -207,7 +207,8 @@ def _fa_world(case, s, o):
 
 
 def _tr_ubm(ubm, a, b):
-    return _gmm(np.asarray(ubm.weights, float), np.asarray(ubm.means, float) * a + b, np.asarray(ubm.variances, float) * a * a)
+    # the variance floor travels with the units (a^2 * floor); the library's default floor is an absolute machine epsilon
+    return _gmm(np.asarray(ubm.weights, float), np.asarray(ubm.means, float) * a + b, np.asarray(ubm.variances, float) * a * a, floor=a * a * 2.0**-60)
 
 
 def _shift_ratio(a, b, s):
@@ -316,6 +317,16 @@ def _ivector_case(case, c, s, o):
     for x1, x2 in zip(sa, sb):
         c.close(np.asarray(B.project(x2), float), np.asarray(A.project(x1), float), "ivector_invariant", "i-vector on transformed features vs original", tags, rtol=1e-7, scale=_shift_ratio(a, b, s), kappa=4096)
         c.transitions += 2
+    # history: the *same* extractor object is converted to the new units in place after it has been used
+    C2 = copy.deepcopy(A)
+    C2.project(sa[0])
+    C2.T *= a[None, :, None]
+    C2.sigma *= (a * a)[None, :]
+    C2.ubm = ub
+    for x1, x2 in zip(sa[:2], sb[:2]):
+        c.close(np.asarray(C2.project(x2), float), np.asarray(A.project(x1), float), "ivector_invariant", "i-vector after the same extractor was converted to the new units in place", tags,
+                rtol=1e-7, scale=_shift_ratio(a, b, s), kappa=4096)
+        c.transitions += 1
     condiv = EPS * float((np.abs(np.vstack(frames) * a + b).max(axis=0) ** 2 / (np.asarray(B.sigma, float).min(axis=0))).max())
     if condiv > 1e-9:
         c.count("ill_conditioned_raw_moments")
